@@ -156,8 +156,10 @@ func (c *controller) convergeBalancer(l log.Logger, key string, svc *v1.Service)
 		}
 	}
 
-	// If svc currently has 1 ip and policy PreferDualStack, try assigning ip from the missing family and same pool
-	if len(lbIPs) == 1 && familyPolicy == v1.IPFamilyPolicyPreferDualStack {
+	// If svc currently has 1 ip and policy PreferDualStack, try assigning ip from the missing family and same pool.
+	// This only applies to services with dual stack cluster IPs: for a single stack service the additional
+	// ip would not match the service's ip family and be cleared again at the next sync.
+	if len(lbIPs) == 1 && familyPolicy == v1.IPFamilyPolicyPreferDualStack && hasDualStackClusterIPs(svc) {
 		level.Info(l).Log("event", "tryAssignAdditionalIP", "msg", "familyPolicy is PreferDualStack, trying to assign additional ip")
 		currentPool := c.ips.Pool(key)
 		// Try assigning a new ip with the missing stack and from the same pool.
@@ -215,6 +217,12 @@ func (c *controller) convergeBalancer(l log.Logger, key string, svc *v1.Service)
 	svc.Annotations[AnnotationIPAllocateFromPool] = pool
 
 	return nil
+}
+
+// hasDualStackClusterIPs tells if the cluster IPs of the service are dual stack.
+func hasDualStackClusterIPs(svc *v1.Service) bool {
+	family, err := ipfamily.ForService(svc)
+	return err == nil && family == ipfamily.DualStack
 }
 
 // serviceFamilyChanged determines if lbIP has different ipfamily
